@@ -623,6 +623,14 @@ def gen_C11(tier, seed, unit, nunits):
             pass
     return out
 
+import gen_ext_ops
+def gen_C02x(tier, seed, unit, nunits):
+    """C02 requests + the operator trait impls of plain F in every variant (`fprog`, tools/gen_ext_ops.py)"""
+    out = dict(gen_C02(tier, seed, unit, nunits))
+    for b, lines in gen_ext_ops.gen(tier, seed, unit, nunits).items():
+        out.setdefault(b, []).extend(lines)
+    return out
+
 PROPS = {
     'C01': dict(lean_modules=['SfxProps.C01'], bins=['arith'], profiles=['chk', 'rel'], gen=gen_C01, thorough_all_fracs=True),
     'C06': dict(lean_modules=['SfxProps.C06'], bins=['arith'], profiles=['chk', 'rel'], gen=gen_C06, thorough_all_fracs=True),
@@ -648,5 +656,5 @@ PROPS = {
     'C11': dict(lean_modules=['SfxProps.C11'], bins=['arith', 'wrap', 'conv', 'math', 'text', 'codec'], profiles=['chk', 'rel'], gen=gen_C11,
                 rule='union of the request corpora of C01 C02 C06 C07 C18 C04 C05 C03 C12 C08 C09 C10 (sub-sampled in quick), each request executed by the harness built with and '
                      'without debug assertions/overflow checks and compared with the model projections; non-trivial = some operand magnitude > 1'),
-    'C02': dict(lean_modules=['SfxProps.C02'], bins=['arith'], profiles=['chk', 'rel'], gen=gen_C02, thorough_all_fracs=True),
+    'C02': dict(lean_modules=['SfxProps.C02', 'SfxProps.C02Ops'], bins=['arith', 'wrap'], profiles=['chk', 'rel'], gen=gen_C02x, thorough_all_fracs=True),
 }
